@@ -549,7 +549,17 @@ func (in *Interp) builtin(fr *frame, b *ssa.Builtin, c *ssa.CallCommon, args []V
 		case Str:
 			src = in.strBytes(s)
 		}
-		n := copy(dst.A, src)
+		n := len(dst.A)
+		if len(src) < n {
+			n = len(src)
+		}
+		tmp := make([]V, n)
+		for i := 0; i < n; i++ {
+			tmp[i] = copyVal(src[i])
+		}
+		for i := 0; i < n; i++ {
+			storeInto(&dst.A[i], tmp[i])
+		}
 		return in.cInt(uint64(n), 64, true)
 	case "delete":
 		if m := args[0].(*MapV); m != nil {
